@@ -22,7 +22,8 @@ LEAN_MODULES = ["Proofs.C13", "Proofs.C13.Update"]
 DRIVERS = ["driver_aave"]
 RULE = ("random operation sequences (2-4 tokens, 27-digit indices, prices over 9 decades, risk tables with zero LTV / non-collateral / "
         "non-borrowable tokens) interleaving every public read with supply/withdraw/borrow/repay(cash|collateral)/change_collateral/"
-        "update/new bar, liquidations at exact collateral/debt ties (capped-or-not decided by the 35-digit rounding), plus a malformed stream (zero, negative, huge, unknown token, closed market) and price shocks that trigger "
+        "update/new bar (quiet bars: parts of the row, or everything but one price, repeat the previous bar)/the same bar set again without a row "
+        "(data=None, prices unchanged or a held token re-priced), the same token supplied and borrowed, collateral crashes that leave 0 < HF <= 1e-6, liquidations at exact collateral/debt ties (capped-or-not decided by the 35-digit rounding), plus a malformed stream (zero, negative, huge, unknown token, closed market) and price shocks that trigger "
         "liquidation; bucket = (operation or view, model outcome/rejection cause, argument class, number of filled supply-side and "
         "borrow-side caches before the call)")
 TRUSTED = ["theorems are for every arithmetic context (cache coherence does not depend on rounding); the driver runs the model under "
@@ -82,6 +83,9 @@ def liq_script(rng, env):
         script.append(({"kind": "supply", "tok": c, "amount": fmt(amt), "coll": True}, None))
         limit += usd * env["risk"][c]["ltv"]
     ds = rng.sample(debts, min(len(debts), rng.choice([1, 1, 2])))
+    if rng.random() < 0.3 and any(c in debts for c in cs):
+        ds[0] = rng.choice([c for c in cs if c in debts])      # the collateral token is also borrowed
+        ds = list(dict.fromkeys(ds))
     share = A.dec_digits(rng, 0.80, 0.985, 4) / len(ds)
     for d in ds:
         a = (limit * share / env["price"][d])
@@ -90,10 +94,17 @@ def liq_script(rng, env):
             script.append(({"kind": "borrow", "tok": d, "amount": fmt((a / k).normalize())}, None))
             if rng.random() < 0.5:
                 script.append(({"kind": "read", "view": rng.choice(["borrows", "healthFactor", "totalBorrowsValue", "marketBalance"])}, None))
-    shock = {c: A.dec_digits(rng, 0.3, 0.85, 4) for c in cs}
+    shock = {c: A.dec_digits(rng, 0.3, 0.85, 4) for c in cs if c not in ds or len(cs) > 1}
+    if rng.random() < 0.15:
+        # the collateral all but vanishes: 0 < HF <= 1e-6 at the end of the bar (liquidated like any HF below 1)
+        shock = {c: D(rng.choice([1, 3, 9])) / D(10) ** rng.choice([7, 8, 10, 13]) for c in cs if c not in ds}
     script.append(({"kind": "newBar"}, shock))
     for _ in range(rng.choice([0, 1, 2])):
         script.append(({"kind": "read", "view": rng.choice(A.VIEWS0)}, None))
+    if rng.random() < 0.3:
+        # a write, then the bar is set again (same timestamp, no row, a held token re-priced) before update(): what the Actuator does
+        script.append(({"kind": "read", "view": rng.choice(["healthFactor", "marketBalance", "supplies", "borrows"])}, None))
+        script.append(({"kind": "newBar"}, "refresh"))
     script.append(({"kind": "update"}, None))
     script.append(({"kind": "read", "view": rng.choice(["supplies", "borrows", "marketBalance", "healthFactor"])}, None))
     if rng.random() < 0.5:
@@ -111,7 +122,7 @@ def run_sequence(ctx: Ctx, rng, nsteps, reqs, meta, exact_env=False, pandas_stat
         if sc is None:
             return
         script = [op for op, _ in sc]
-        shocks = {i: sh for i, (_, sh) in enumerate(sc) if sh is not None}
+        shocks = {i: sh for i, (_, sh) in enumerate(sc) if sh is not None}      # a price shock per token, or "refresh"
         nsteps = len(script)
         m, b, actions = A.new_market(env, wallet)
     elif tie:
@@ -132,6 +143,11 @@ def run_sequence(ctx: Ctx, rng, nsteps, reqs, meta, exact_env=False, pandas_stat
         r = rng.random()
         if r < 0.07 or (last_kind == "newBar" and r < 0.5):
             return {"kind": "update"}, None
+        if 0.16 <= r < 0.21:
+            # the same bar set again without a row (data=None: the market reloads it from its frame), prices unchanged or re-priced:
+            # every view must follow the price Series that is installed now
+            held = [k.name for k in list(m._supplies) + list(m._borrows)]
+            return {"kind": "newBar"}, A.refresh_env(rng, env, held)
         if r < 0.16:
             shock = None
             if m._supplies and rng.random() < 0.6:
@@ -147,7 +163,7 @@ def run_sequence(ctx: Ctx, rng, nsteps, reqs, meta, exact_env=False, pandas_stat
                 drop = rng.choice(later if later and rng.random() < 0.7 else held)
                 nxt["price"] = {t: p for t, p in nxt["price"].items() if t != drop}
             return {"kind": "newBar"}, nxt
-        if r < 0.42:
+        if r < 0.45:
             return read_op(), None
         return A.gen_op(rng, m, b, env), None
 
@@ -166,7 +182,10 @@ def run_sequence(ctx: Ctx, rng, nsteps, reqs, meta, exact_env=False, pandas_stat
         if script is not None:
             op = script[i]
             if op["kind"] == "newBar":
-                env_next = A.next_env(rng, env, shocks.get(i))
+                if shocks.get(i) == "refresh":
+                    env_next = A.refresh_env(rng, env, [k.name for k in list(m._supplies) + list(m._borrows)], "held")
+                else:
+                    env_next = A.next_env(rng, env, shocks.get(i))
         else:
             if not pending:
                 op, nxt = draw()
@@ -184,12 +203,17 @@ def run_sequence(ctx: Ctx, rng, nsteps, reqs, meta, exact_env=False, pandas_stat
             env = env_next
         s1 = A.dump_state(m, b, actions, n0)
         case = {"env": A.env_json(env_used), "state": s0, "op": op}
+        for ft in A.features(m, env):
+            ctx.count("feature:" + ft)
         wf = None
         if op["kind"] == "update":
             # the hypothesis of `C13_liquidate_never_raises_debt_exceeds_wf` / `C04_aave_update_completes`, evaluated on this very state:
             # on a well-formed bar and state an open market's update() must not raise at all
             wf = A.upd_wf(env_used, s0)
             ctx.count("update_on_well_formed_state" if wf else "update_on_malformed_state")
+            hf0 = next((a["hfBefore"] for a in s1["actions"] if a["kind"] == "liquidation"), None)
+            if hf0 not in (None, "inf") and 0 < A.Fraction(hf0) <= A.Fraction(1, 10 ** 6):
+                ctx.count("feature:update-with-hf-in-(0,1e-6]")
             if wf and env_used.get("isOpen", True) and outcome != "ok":
                 ctx.violate(f"update.raises-on-well-formed-state:{outcome}",
                             f"update() raised {outcome} on an open market although the bar and the positions are well formed "
